@@ -597,6 +597,45 @@ fn rename_objects(merge_module: &mut Module, rename_table: &HashMap<String, Stri
                 rename_table,
             );
         }
+        // MODULE.CHARACTERISTIC.VIRTUAL_CHARACTERISTIC
+        if let Some(virtual_characteristic) = &mut characteristic.virtual_characteristic {
+            rename_item_list(&mut virtual_characteristic.characteristic_list, rename_table);
+        }
+        // MODULE.CHARACTERISTIC.COMPARISON_QUANTITY
+        if let Some(comparison_quantity) = &mut characteristic.comparison_quantity {
+            if let Some(newname) = rename_table.get(&comparison_quantity.name) {
+                comparison_quantity.name = newname.to_owned();
+            }
+        }
+        // MODULE.CHARACTERISTIC.MAP_LIST
+        if let Some(map_list) = &mut characteristic.map_list {
+            rename_item_list(&mut map_list.name_list, rename_table);
+        }
+    }
+    // MODULE.MEASUREMENT
+    for measurement in &mut merge_module.measurement {
+        // MODULE.MEASUREMENT.VIRTUAL
+        if let Some(var_virtual) = &mut measurement.var_virtual {
+            rename_item_list(&mut var_virtual.measuring_channel_list, rename_table);
+        }
+    }
+    // MODULE.TYPEDEF_AXIS
+    for typedef_axis in &mut merge_module.typedef_axis {
+        // MODULE.TYPEDEF_AXIS.input_quantity
+        if let Some(newname) = rename_table.get(&typedef_axis.input_quantity) {
+            typedef_axis.input_quantity = newname.to_owned();
+        }
+    }
+    // MODULE.INSTANCE
+    for instance in &mut merge_module.instance {
+        // MODULE.INSTANCE.OVERWRITE.INPUT_QUANTITY
+        for overwrite in &mut instance.overwrite {
+            if let Some(input_quantity) = &mut overwrite.input_quantity {
+                if let Some(newname) = rename_table.get(&input_quantity.name) {
+                    input_quantity.name = newname.to_owned();
+                }
+            }
+        }
     }
     // MODULE.TYPEDEF_CHARACTERISTIC
     for typedef_characteristic in &mut merge_module.typedef_characteristic {
